@@ -2,6 +2,7 @@
 // M3: complete structured families n=1..7; each Eigensystem/Eigenvectors call in a child process with a time limit (M4).
 #include "mc/mc.hpp"
 #include "mc/exit_trap.hpp"
+#include "mc/purity.hpp"
 #include "harness/linalg_ref.hpp"
 #include "libphysica/Linear_Algebra.hpp"
 using namespace libphysica;
@@ -263,6 +264,29 @@ static std::vector<Rows> orthogonal_family(int n)
 	return fam;
 }
 
+// ---- call histories: factorisations and eigenpairs of one matrix do not depend on the matrices handled before ---------------------------
+static void histories(unsigned long long& unit)
+{
+	auto ms = [](const Matrix& M) { std::string o; for(unsigned i = 0; i < M.Rows(); i++) for(unsigned j = 0; j < M.Columns(); j++) o += mc::hexd(M[i][j]) + ","; return o; };
+	Rows A = {{4, 1, -2}, {1, 3, 0.5}, {-2, 0.5, 1}}, B = {{2, -1}, {-1, 3}}, C = {{5, 0, 1, 0}, {0, -2, 0, 0.5}, {1, 0, 1, 0}, {0, 0.5, 0, 0.25}}, D = {{0, 1, 0}, {0, 0, -1}, {1, 0, 0}};
+	std::vector<mc::PureLetter> L;
+	int k = 0;
+	for(const Rows* r : {&A, &B, &C, &D})
+	{
+		Rows a = *r;
+		std::string n = std::string(1, "ABCD"[k++]);
+		L.push_back({"QR(" + n + ")", [=]() { auto qr = QR_Decomposition(Matrix(a)); return ms(qr.first) + "|" + ms(qr.second); }});
+		L.push_back({"Inverse(" + n + ")", [=]() { return ms(Matrix(a).Inverse()); }});
+		if(n != "D")
+		{
+			L.push_back({"Eigenvalues(" + n + ")", [=]() { return mc::hexv(Eigenvalues(Matrix(a))); }});
+			L.push_back({"Eigensystem(" + n + ")", [=]() { Matrix M(a); auto es = Eigensystem(M); std::string o = mc::hexv(es.first) + "|"; for(auto& v : es.second) for(unsigned i = 0; i < v.Size(); i++) o += mc::hexd(v[i]) + ","; return o; }});
+		}
+	}
+	long long t = mc::purity("histories", L, mc::thorough() ? 3 : 2, unit);
+	mc::count("eigen_cases", t);
+}
+
 int main(int argc, char** argv)
 {
 	mc::init(argc, argv);
@@ -334,6 +358,7 @@ int main(int argc, char** argv)
 		unit += (idx >> 5) + 1;
 	}
 	// eigen families
+	histories(unit);
 	std::vector<std::vector<double>> ratios = {{0.5}, {0.8}, {0.1}, {0.3, 0.7}};
 	if(mc::thorough())
 		for(auto r : std::vector<std::vector<double>>{{0.2}, {0.3}, {0.4}, {0.6}, {0.7}, {0.75}, {0.8, 0.1}, {0.1, 0.8}, {0.5, 0.8, 0.2}, {0.65, 0.35}}) ratios.push_back(r);
